@@ -166,6 +166,7 @@ def run_history(ctx, case):
     mask_changes = 0
     asc_masked = False
     labels = set()
+    holds = []
     for step, op in enumerate(ops):
         kind = op["op"]
         labels.add("op:" + kind)
@@ -284,6 +285,17 @@ def run_history(ctx, case):
             raise AssertionError(kind)
         if not compare(ctx, case, ds, model, step):
             break
+        # "a dictionary export can be imported again any number of times": an export kept by the caller is a snapshot, so
+        # importing it after further operations on the data set must still give the state at export time
+        for h_step, h, snap in holds:
+            if not ctx.check(json.dumps(h, sort_keys=True, default=str) == snap, "export-is-a-snapshot", case,
+                             f"the dictionary exported after step {h_step} changed when step {step} ({kind}) was applied to the data set: importing it now gives another data set"):
+                holds = []
+                break
+        h = ds.to_dict()
+        holds = (holds + [(step, h, json.dumps(h, sort_keys=True, default=str))])[-3:]
+        if len(holds) > 1 and kind in ("set_mask", "low_pass", "high_pass", "subtract"):
+            labels.add("export-held-across-a-change")
     nontrivial = asc_masked or (mutating >= 3 and mask_changes >= 1)
     if len(model.f) == 1:
         labels.add("single-point")
